@@ -153,19 +153,33 @@ pub fn rec_msm(a: &Args, out: &mut Out) {
                     let used: Vec<u8> = cells.iter().map(|c| c.0).collect();
                     sats.retain(|s| used.contains(s));
                 }
-                // orders: ascending, reversed, shuffled
-                match k % 3 {
-                    0 => {
-                        sats.sort();
-                    }
+                // orders of the two lists: six modes, incl. "satellites ascending but signals inside a satellite not"
+                let pos_of = |c: &(u8, u8, char)| sigs.iter().position(|s| (s.0, s.1) == (c.1, c.2)).unwrap_or(99);
+                cells.sort_by_key(|c| (c.0, pos_of(c)));
+                sats.sort();
+                match k % 6 {
+                    0 => {}
                     1 => {
-                        sats.sort();
                         sats.reverse();
                         cells.reverse();
                     }
-                    _ => {
+                    2 => {
                         shuffle(&mut r, &mut sats);
                         shuffle(&mut r, &mut cells);
+                    }
+                    3 => {
+                        // satellites ascending, signals of each satellite descending
+                        cells.sort_by_key(|c| (c.0 as i32, -(pos_of(c) as i32)));
+                    }
+                    4 => {
+                        // satellites ascending, signals of each satellite shuffled; satellite rows shuffled
+                        shuffle(&mut r, &mut cells);
+                        cells.sort_by_key(|c| c.0);
+                        shuffle(&mut r, &mut sats);
+                    }
+                    _ => {
+                        // cells ordered by signal first, then satellite
+                        cells.sort_by_key(|c| (pos_of(c), c.0));
                     }
                 }
                 emit_case(&mut r, out, num, g, &t, sats.clone(), cells.clone(), "admissible");
